@@ -3,67 +3,111 @@
 A sampled history = (specification, workload, initial file state, schedule).  It is executed
 once without faults to learn the schedule taken and the number K of scheduling steps of the
 session under attack; then it is re-executed once per crash point k = 1..K with the same
-schedule prefix: the session's process group is killed at step k and a final session
-resubmits everything."""
+schedule prefix: the session's process group is killed (or, in every fourth history,
+interrupted) at step k and a final session resubmits everything.
+
+Depth 2 (every fifth history of the thorough tier): the first session is killed at a seeded
+step k1, the restarted session is then attacked at every one of its steps k2, and a third
+session resubmits everything - every crash point of the *recovery* is enumerated too."""
 
 from __future__ import annotations
 
 import copy
 import random
 
-from . import gen, plans
+from . import plans
 
 
-def base_plan(seed: int) -> dict:
-    rng = random.Random(seed ^ 0x5EE9)
+def base_plan(seed: int, depth: int = 1) -> dict:
     plan = plans.plan_c17(seed, faults=False)
-    # exactly two phases: the session under attack (plus optional sibling), then the final one
     first = plan["phases"][0]
     last = copy.deepcopy(plan["phases"][-1]) if len(plan["phases"]) > 1 else copy.deepcopy(first)
+    for s in first["sessions"]:
+        s["end"] = "graceful"
+    phases = [first]
+    if depth == 2:
+        mid = copy.deepcopy(last)
+        for s in mid["sessions"]:
+            s["group"] = s["group"][0] + "m"
+            s["end"] = "graceful"
+        phases.append(mid)
     for s in last["sessions"]:
         s["group"] = s["group"][0] + "f"
         s["end"] = "graceful"
-    for s in first["sessions"]:
-        s["end"] = "graceful"
-    plan["phases"] = [first, last]
+    phases.append(last)
+    plan["phases"] = phases
     plan["knobs"]["state_digest"] = False
     # crash points are the file / lock / pool / evaluate operations (the property's "between
     # any two file operations"); source-line pre-emption would only multiply equal states
     plan["knobs"]["line_preempt"] = False
-    plan["sweep_target"] = first["sessions"][0]["group"]
+    plan["sweep_targets"] = [ph["sessions"][0]["group"] for ph in phases[:-1]]
     plan["property"] = "C17"
     return plan
 
 
 def sweep_plan(cfg, seed: int, variant):
-    plan = base_plan(seed)
+    depth = 1 if variant is None else variant.get("depth", 1)
+    plan = base_plan(seed, depth)
+    if variant is None or variant.get("k") is None:
+        pass
     if variant is None:
         return plan
-    plan["schedule"] = list(variant["schedule"])
-    for s in plan["phases"][0]["sessions"]:
-        if s["group"] == plan["sweep_target"]:
-            s["end"] = variant.get("what", "kill")
-            s["fault_step"] = variant["k"]
+    if variant.get("schedule") is not None:
+        plan["schedule"] = list(variant["schedule"])
+    ks = variant.get("ks", [])
+    for pi, k in enumerate(ks):
+        if k is None:
+            continue
+        for s in plan["phases"][pi]["sessions"]:
+            if s["group"] == plan["sweep_targets"][pi]:
+                s["end"] = variant.get("what", "kill")
+                s["fault_step"] = k
     return plan
 
 
 def sweep_job(cfg, seed: int, base: str, idx: int):
     from .check import exec_plan, run_summary
 
-    p0 = sweep_plan(cfg, seed, None)
-    r0 = exec_plan(cfg, p0, base, f"s{idx}-0")
+    rng = random.Random(seed ^ 0x5EE9)
+    depth = 2 if rng.random() < 0.2 else 1
+    what = "interrupt" if rng.random() < 0.25 else "kill"
+
+    def run(variant, tag, extra=None):
+        p = sweep_plan(cfg, seed, variant)
+        if extra:
+            p.update(extra)
+        r = exec_plan(cfg, p, base, tag)
+        return r
+
+    v0 = {"depth": depth, "ks": [], "schedule": None, "what": what}
+    r0 = run(v0, f"s{idx}-0", {"want_ref": True})
     if r0.get("harness_error"):
         return {"harness_error": r0["harness_error"]}
-    K = r0["steps"][0]
+    ref = r0.get("ref")
     sched = list(r0.get("schedule", []))
     s0 = run_summary(r0)
     s0.pop("states", None)
-    runs = [(None, s0)]
+    runs = [(v0, s0)]
+    prefix = []
+    if depth == 2:
+        k1 = rng.randint(1, max(1, r0["steps"][0]))
+        v1 = {"depth": 2, "ks": [k1], "schedule": sched, "what": "kill"}
+        r1 = run(v1, f"s{idx}-k1", {"ref_cache": ref})
+        if r1.get("harness_error"):
+            return {"harness_error": r1["harness_error"]}
+        s1 = run_summary(r1)
+        s1.pop("states", None)
+        runs.append((v1, s1))
+        prefix = [k1]
+        sched = list(r1.get("schedule", sched))
+        K = r1["steps"][1]
+    else:
+        K = r0["steps"][0]
     for k in range(1, K + 1):
-        var = {"k": k, "schedule": sched}
-        rk = exec_plan(cfg, sweep_plan(cfg, seed, var), base, f"s{idx}-{k}")
+        var = {"depth": depth, "ks": prefix + [k], "schedule": sched, "what": what}
+        rk = run(var, f"s{idx}-{k}", {"ref_cache": ref})
         sk = run_summary(rk)
         sk.pop("states", None)
         sk.pop("schedule", None)
         runs.append((var, sk))
-    return {"runs": runs, "points": K}
+    return {"runs": runs, "points": K, "depth": depth, "what": what}
